@@ -169,7 +169,11 @@ def find_roots(t, pred):
 
 def search_calls(t):
     """all ('call', fixed_point::search, (supply, limit, closure)) sub-terms"""
-    return [x for x in T.subterms(t) if is_tag(x, 'call') and x[1] == SEARCH]
+    out = []
+    for x in T.subterms(t):
+        if is_tag(x, 'call') and x[1] == SEARCH and x not in out:
+            out.append(x)
+    return out
 
 
 TRUNCATING = {'take', 'skip', 'step_by', 'filter', 'skip_while', 'filter_map', 'rev', 'chain', 'cycle'}
